@@ -3,6 +3,7 @@
 // diagnostic with the XPath it is attributed to.
 //   c16 batch     stdin: "<id> <mode> <base64 xml>"   mode: b = as built (DocumentBuilder only, no static analysis),
 //                                                            p = public entry point parse_XML_buffer(buf, Document*, true)
+//                                                            t = the input is XTA text: parse_XTA(buf, DocumentBuilder*, true), as built
 //   stdout per case:  BEGIN id / RC <n|EXC:class> / F <key> <value> ... / E <path> <msg> / W <path> <msg> / END id
 // Identifier nodes are printed with the type of the symbol they are bound to, so a changed binding is a changed line.
 #include "c08_trace.hpp"
@@ -143,6 +144,9 @@ int main(int, char**)
             if (mode == "b") {
                 DocumentBuilder b(*doc);
                 rc = std::to_string(parse_XML_buffer(input.c_str(), &b, true));
+            } else if (mode == "t") {      // the textual format: the whole file is one text, the labels recover through their error productions
+                DocumentBuilder b(*doc);      // as built (no static analysis), like mode b
+                rc = std::to_string(parse_XTA(input.c_str(), &b, true));
             } else {
                 rc = std::to_string(parse_XML_buffer(input.c_str(), doc.get(), true));
             }
